@@ -8,7 +8,9 @@ CHECKS = {
         text="Generated plugin graphs (8 plugin kinds) x independent chunkings x processor/worker/lazy/capacity "
              "configurations x stored subsets x controlled thread schedules, compared bit-for-bit with a pure "
              "whole-run reference evaluator; yielded chunks must tile the run; everything stored is re-read and "
-             "compared. Exploration (sampling) is the honest level for a product space this large.",
+             "compared. Sub-checks: single, threaded, plugin_capacity (room given by Plugin.max_messages only), "
+             "multiprocess (simulated process pool). Exploration (sampling) is the honest level for a product space "
+             "this large.",
         design_ref="DESIGN.md §5 C01, §2 G-graph, §3",
         note="Trusts the reference evaluator vf/graphs.py:evaluate and that the grammar's computations are "
              "chunking-invariant by definition; threads are pre-empted at synchronisation points only; numba "
